@@ -17,4 +17,17 @@ int  open_fds();                             // virtual descriptors still open
 int  misuse();                               // operations on closed / never opened virtual descriptors so far
 uint64_t state_hash();
 void set_spin_limit(int polls, void (*handler)(const char* what)); // non-consuming polls at end-of-stream tolerated before `handler` is called
+// event counters since the last reset() (observation only: they are not part of state_hash() and add no schedule points)
+enum Stat { ST_ACCEPTS,            // accept() calls that returned a connection
+            ST_ACCEPT_FAILURES,    // accept() calls made to fail by fail_accept()
+            ST_ACCEPTED_OPEN,      // descriptors returned by accept() that are open now (computed)
+            ST_SELECT_TIMEOUTS,    // select() calls that returned 0
+            ST_SELECT_MULTI,       // select() calls that returned >= 2 ready descriptors
+            ST_SENDS_TO_CLOSED_PEER, // send()/write() calls that failed with EPIPE
+            ST_SIGPIPE_SENDS,      // ... of which without MSG_NOSIGNAL (write(), or send() with flags lacking it): a real kernel raises SIGPIPE
+            ST_NSTATS };
+long stat(int which);
+// environment deviation: the k-th accept() call since reset() on a listening socket with a pending connection fails once with
+// ECONNABORTED; the pending connection is dropped (its client sees end-of-stream / EPIPE). 0 = never (default, restored by reset()).
+void fail_accept(int kth);
 }
